@@ -67,6 +67,7 @@ type graphCase struct {
 	Extra   map[string]string `json:"extra,omitempty"` // explicit file contents (foreign cases)
 	Procs   int               `json:"procs,omitempty"` // GOMAXPROCS during the exploration (0 = the worker's own)
 	NoCheck bool              `json:"nocheck,omitempty"` // Settings.NoDifferentVersionCheck (the --no-different-version-check option)
+	Sep     string            `json:"sep,omitempty"`     // a line written between consecutive import statements
 }
 
 var fileLetters = []string{"a", "b", "c", "d", "e", "f"}
@@ -325,6 +326,15 @@ func (c05) Cases(tier string, emit func(string, interface{})) {
 			emit("graph", gc)
 		}
 	}
+	// layout of the import block: an empty line, a line of blanks, a comment at column 0 and an indented comment
+	// between import statements
+	for _, sh := range []string{"fan3", "fan3-cross", "diamond"} {
+		for _, sep := range []string{"\n", "    \n", "\t\n", "# note\n", "    # note\n", "#\n"} {
+			gc := mkGraphCase(namedShapes4[sh], 0, plainSpell, "a.sysl", fmt.Sprintf("%s sep=%q", sh, sep))
+			gc.Sep = sep
+			emit("graph", gc)
+		}
+	}
 	// wide fans under GOMAXPROCS 1..4: logic that sizes its concurrency by the processor count must not
 	// change the result (the scheduler runs one thread at a time whatever the value)
 	for _, sh := range []struct {
@@ -382,7 +392,10 @@ func (y *yieldFs) Open(name string) (afero.File, error) {
 
 func fileText(gc graphCase, i int) string {
 	var b strings.Builder
-	for _, im := range gc.Imports[i] {
+	for k, im := range gc.Imports[i] {
+		if k > 0 {
+			b.WriteString(gc.Sep)
+		}
 		b.WriteString("import " + im + "\n")
 	}
 	up := strings.ToUpper(fileLetters[i])
@@ -558,7 +571,7 @@ func retrievalBody(gc graphCase, full bool, modOut **sysl.Module) sched.Body {
 }
 
 func graphKey(gc graphCase) string {
-	return fmt.Sprintf("%v|%v|root=%s|limit=%d|faults=%v|procs=%d|nocheck=%v", gc.Edges, gc.Imports, gc.Root, gc.Limit, gc.Faults, gc.Procs, gc.NoCheck)
+	return fmt.Sprintf("%v|%v|root=%s|limit=%d|faults=%v|procs=%d|nocheck=%v|sep=%q", gc.Edges, gc.Imports, gc.Root, gc.Limit, gc.Faults, gc.Procs, gc.NoCheck, gc.Sep)
 }
 
 func (c05) Run(c core.Case) core.Outcome {
